@@ -47,4 +47,6 @@ MUTANTS = [
     m("c01-twin-accept-order", None, "        if not integration_error and rng.uniform() < accept_prob:", "        if not integration_error and accept_prob > rng.uniform():", twin=True),
     m("c01-slice-weight-boolean", "R9", '        return (aux_vars["log_u"] <= -h) * 1', '        return aux_vars["log_u"] <= -h'),
     m("c01-twin-slice-weight-int", None, '        return (aux_vars["log_u"] <= -h) * 1', '        return int(aux_vars["log_u"] <= -h)', twin=True),
+    m("c01-random-length-depends-on-dir", "R1b", "        n_step = rng.integers(*self.n_step_range)\n", "        n_step = rng.integers(*self.n_step_range) + (state.dir > 0)\n"),
+    m("c01-twin-random-length-unpacked", None, "        n_step = rng.integers(*self.n_step_range)\n", "        lower, upper = self.n_step_range\n        n_step = rng.integers(lower, upper)\n", twin=True),
 ]
